@@ -90,6 +90,11 @@ def services():
             ir.arg("async", P("INTEGER"), "query", "async"), ir.arg("camelCase", ir.optional(P("INTEGER")), "query", "camel-case"),
             ir.arg("self", P("INTEGER"), "header", "X-Self"), ir.arg("snake_arg", ir.list_(P("INTEGER")), "query", "snake_arg"),
             ir.arg("match", ir.optional(P("BOOLEAN")), "header", "X-Match")], returns=P("STRING")),
+        # every query argument optional / a collection: the first written pair may be any of them
+        ir.endpoint("optQuery", "GET", "/m/optquery", [
+            ir.arg("first", ir.optional(P("STRING")), "query", "first"), ir.arg("lst", ir.list_(P("INTEGER")), "query", "lst"),
+            ir.arg("st", ir.set_(P("STRING")), "query", "st"), ir.arg("last", ir.optional(P("INTEGER")), "query", "last")],
+            returns=P("STRING")),
         ir.endpoint("safeBody", "POST", "/m/safebody", [ir.arg("body", R("SafeObj"), "body"), ir.arg("n", P("INTEGER"), "query", "n")],
                     returns=P("STRING")),
     ]
